@@ -1020,6 +1020,35 @@ impl Gen {
     }
 }
 
+impl Gen {
+    /// the hypothesis of `durable_order_eq_memory_order` / `recovered_eq_live`: every write durable
+    /// (`put_durable` of any value, `delete_durable`) on one to three contended keys of the plain /
+    /// graph / table / emb: classes, plus readers (get / exists / scan) that interleave with the
+    /// sub-steps of the `emb:` writes
+    fn durable_rw(&mut self, r: &mut Rng, nthreads: usize) -> Vec<Vec<Op>> {
+        let nkeys = 1 + r.below(3) as usize;
+        let keys: Vec<Key> = (0..nkeys).map(|_| Key::new(*r.pick(&[Cls::E, Cls::E, Cls::P, Cls::G, Cls::T]), 1 + r.below(2) as u32)).collect();
+        (0..nthreads)
+            .map(|_| {
+                let n = 1 + r.below(3) as usize;
+                (0..n)
+                    .map(|_| {
+                        let k = *r.pick(&keys);
+                        match r.below(100) {
+                            0..=44 => Op::PutD(k, self.val(r, k)),
+                            45..=69 => Op::DelD(k),
+                            70..=84 => Op::Get(k),
+                            85..=91 => Op::Ex(k),
+                            92..=96 => Op::Scan(Key::of(k.cls().prefix())),
+                            _ => Op::Scan(Key::of("")),
+                        }
+                    })
+                    .collect()
+            })
+            .collect()
+    }
+}
+
 // ------------------------------------------------------------------ one case
 
 /// the replayable input of a case (`line`, and `mutex` / `grants` of a real-mutex run) + details
@@ -1714,6 +1743,57 @@ fn main() {
             ctx.case(stream, &progs, wal, None, &mut r, true);
         }
         ctx.real_mutex = false;
+    }
+
+    // ---- the hypotheses of `durable_ops_linearizable` and `durable_order_eq_memory_order` /
+    //      `recovered_eq_live` on the real store: directed histories in which one guard of the
+    //      durable path is the only thing between the code and a violation, then seeded runs
+    {
+        let mut r = root.fork("directed.durable");
+        let (p1, e1, e2, e3) = (Key::new(Cls::P, 1), Key::new(Cls::E, 1), Key::new(Cls::E, 2), Key::new(Cls::E, 3));
+        let n = |t: u32| Val { tag: t, vec: VecF::N };
+        let g = |t: u32| Val { tag: t, vec: VecF::Good(t) };
+        let b = |t: u32| Val { tag: t, vec: VecF::Bad(t) };
+        // a reader and a non-durable writer between the log step and the apply of a durable put:
+        // the logged write is invisible until it is applied, then overwrites
+        ctx.case(
+            "directed.durable.reader_between_log_and_apply",
+            &[vec![Op::PutD(p1, n(1))], vec![Op::Get(p1), Op::Get(p1), Op::PutD(p1, n(3))], vec![Op::Put(p1, n(2)), Op::Scan(Key::of("user:"))]],
+            Some(SyncMode::Immediate),
+            Some(&[0, 1, 2, 2, 1, 0, 1, 1]),
+            &mut r,
+            true,
+        );
+        let seqs: Vec<(&str, Vec<Op>)> = vec![
+            // the vector of an older value must not survive a put without vector, live or replayed
+            ("emb_put_without_vector_drops_slab_entry", vec![Op::PutD(e1, g(1)), Op::PutD(e1, n(2)), Op::Get(e1), Op::Ex(e1)]),
+            // a vector of another dimension: kept in the metadata alone, the old slab entry dropped
+            ("emb_put_wrong_dimension", vec![Op::PutD(e1, g(1)), Op::PutD(e1, b(2)), Op::Get(e1), Op::PutD(e1, g(3)), Op::Get(e1)]),
+            // entity ids after a delete: the tombstoned id is not reused, replay assigns the same ids
+            ("emb_ids_after_delete", vec![Op::PutD(e1, g(1)), Op::PutD(e2, g(2)), Op::DelD(e1), Op::PutD(e3, g(3)), Op::PutD(e1, g(4)), Op::Get(e1), Op::Get(e2), Op::Get(e3), Op::Scan(Key::of("emb:"))]),
+            // delete of a key that was never put, of a key put without vector, twice
+            ("emb_deletes", vec![Op::DelD(e1), Op::PutD(e1, n(1)), Op::DelD(e1), Op::DelD(e1), Op::Ex(e1), Op::PutD(e2, b(2)), Op::DelD(e2), Op::Scan(Key::of("emb:"))]),
+        ];
+        for (name, prog) in seqs {
+            ctx.case(&format!("directed.durable.{name}"), &[prog], Some(SyncMode::Immediate), None, &mut r, true);
+        }
+        // two durable writers of emb:1 (four steps each, serialised by the mutex) and a reader inside
+        let three = vec![vec![Op::PutD(e1, g(1)), Op::DelD(e1), Op::PutD(e1, n(3))], vec![Op::PutD(e1, b(2)), Op::Get(e1)], vec![Op::PutD(p1, g(4)), Op::Scan(Key::of(""))]];
+        ctx.case("directed.durable.emb_writers_and_reader", &three, Some(SyncMode::Immediate), Some(&[0, 0, 0, 0, 1, 1, 1, 1, 2, 1, 2, 0, 1, 2, 0, 0, 0, 0, 0, 0, 0]), &mut r, true);
+        for _ in 0..(4 * scale) {
+            ctx.case("directed.durable.emb_writers_and_reader", &three, Some(SyncMode::Manual), None, &mut r, true);
+        }
+        let stream = "random.durable_writers_and_readers";
+        let mut r = root.fork(stream);
+        let mut g = Gen { next_tag: 0 };
+        for i in 0..(120 * scale) {
+            let nthreads = 2 + (i % 5) as usize; // 2..=6
+            let progs = g.durable_rw(&mut r, nthreads);
+            let wal = Some(if i % 8 == 0 { SyncMode::Immediate } else { SyncMode::Manual });
+            ctx.variant = if i % 4 == 3 { 1 } else { 0 };
+            ctx.case(stream, &progs, wal, None, &mut r, true);
+        }
+        ctx.variant = 0;
     }
 
     // ---- the hypothesis of `emb_linearizable_partial` on the real store: any programs of
